@@ -232,6 +232,7 @@ def audit(prop, log, modules=None):
         res['dep_theorems'] = int(m.group(1))
     # forbidden tokens (comments stripped) in every hand-written module the property file depends on
     mods = re.findall(r'AUDIT-MODULE (\S+)', r.stdout)
+    res['modules'] = [m for m in mods if m.startswith('QRV.')]
     for mname in mods:
         if mname == 'QRV.Audit' or mname.startswith('QRV.Gen.'):
             continue
@@ -251,6 +252,78 @@ def audit(prop, log, modules=None):
         res['bad'].append('no theorems found in QRV.Props.%s' % prop)
     log('audit %s: %d property theorems, %d dependency theorems, %s' % (prop, len(res['theorems']), res['dep_theorems'], 'ok' if res['ok'] else 'BAD'))
     return res
+
+
+def _olean_keys(mods):
+    """cache key per module: sha256 of its own .olean and of the .oleans of every QRV module it imports, transitively"""
+    import hashlib
+    own, imps = {}, {}
+    for m in mods:
+        rel = os.path.join(*m.split('.'))
+        o = os.path.join(LEAN, '.lake', 'build', 'lib', 'lean', rel + '.olean')
+        try:
+            own[m] = hashlib.sha256(open(o, 'rb').read()).hexdigest()
+        except OSError:
+            own[m] = 'missing'
+        try:
+            src = open(os.path.join(LEAN, rel + '.lean')).read()
+        except OSError:
+            src = ''
+        imps[m] = [x for x in re.findall(r'^import (QRV\.\S+)', src, re.M)]
+    memo = {}
+
+    def clo(m, seen):
+        if m in memo:
+            return memo[m]
+        out = {m}
+        for i in imps.get(m, []):
+            if i not in seen:
+                out |= clo(i, seen | {m})
+        memo[m] = out
+        return out
+    keys = {}
+    for m in mods:
+        h = hashlib.sha256()
+        for x in sorted(clo(m, set())):
+            h.update((x + ':' + own.get(x, 'ext') + ';').encode())
+        keys[m] = h.hexdigest()
+    return keys
+
+
+def leanchecker(mods, log, nproc=8):
+    """thorough tier: replay the compiled .olean of every project module the property depends on with
+    Lean's independent re-checker (`leanchecker`), in parallel batches.  A module whose .olean and whose
+    imports' .oleans are byte-identical to a replay that already succeeded is not replayed again."""
+    from concurrent.futures import ThreadPoolExecutor
+    t0 = time.time()
+    mods = sorted(set(mods))
+    if not mods:
+        return {'ok': True, 'modules': 0, 'failed': [], 'cached': 0}
+    cpath = os.path.join(B, 'leanchecker_ok.json')
+    try:
+        cache = set(json.load(open(cpath)))
+    except (OSError, ValueError):
+        cache = set()
+    keys = _olean_keys(mods)
+    todo = [m for m in mods if keys[m] not in cache]
+    failed = []
+    if todo:
+        chunks = [todo[i::nproc] for i in range(nproc) if todo[i::nproc]]
+
+        def one(c):
+            r = sh(['lake', 'env', 'leanchecker'] + c, cwd=LEAN)
+            return (c, r.returncode, r.stdout[-1500:])
+        with ThreadPoolExecutor(len(chunks)) as ex:
+            outs = list(ex.map(one, chunks))
+        failed = [{'modules': c, 'output': o} for c, rc, o in outs if rc != 0]
+        for c, rc, o in outs:
+            if rc == 0:
+                cache |= {keys[m] for m in c}
+        with open(cpath + '.tmp', 'w') as fh:
+            json.dump(sorted(cache), fh)
+        os.replace(cpath + '.tmp', cpath)
+    log('leanchecker: %d modules (%d replayed now, %d byte-identical to an earlier successful replay) in %.1fs: %s' % (len(mods), len(todo), len(mods) - len(todo), time.time() - t0, 'ok' if not failed else 'FAILED'))
+    return {'ok': not failed, 'modules': len(mods), 'failed': failed, 'cached': len(mods) - len(todo)}
 
 
 def run_lines(binary, lines, env=None, timeout=300, nproc=1):
@@ -374,6 +447,13 @@ def prepare(ctx, need_race=False, modules=None):
         lb = lake_build(modules + ['QRV.Audit'], ctx.log)
         ld = lake_build(['qrvdriver'], ctx.log)
         au = audit(ctx.prop, ctx.log, modules) if lb['ok'] else {'ok': False, 'theorems': {}, 'bad': ['proofs did not build'], 'dep_theorems': 0, 'forbidden': []}
+        if ctx.tier == 'thorough' and lb['ok'] and au['ok']:
+            lc = leanchecker(au.get('modules', []), ctx.log)
+            au['leanchecker'] = {'ok': lc['ok'], 'modules': lc['modules'], 'replayed_in_this_run': lc['modules'] - lc['cached']}
+            if not lc['ok']:
+                au['ok'] = False
+                for f in lc['failed']:
+                    au['bad'].append('leanchecker rejects one of %s: %s' % (' '.join(f['modules'])[:200], f['output'][-300:].replace('\n', ' ')))
         shutil.rmtree(ctx.rundir, ignore_errors=True)
         os.makedirs(ctx.rundir)
         ctx.harness = os.path.join(ctx.rundir, 'verifharness')
